@@ -61,6 +61,24 @@ def chain_code(rnd):
 
 
 INDEX_CORNERS = [0, 1, 2, H - 2, H - 1, H, H + 1, H + 2, 2 * H - 2, 2 * H - 1]
+# numbers that MEAN something elsewhere in the library (purposes, BIP85 applications, word counts, push-length and varint
+# thresholds, round numbers): an account / index / count that happens to equal one must not be mistaken for it
+MEANINGFUL = [44, 49, 84, 83696968, 39, 2, 32, 128169, 707764, 12, 24, 75, 76, 255, 256, 520, 1000, 16384, 65535, 65536, 1000000]
+
+
+def account(rnd):
+    r = rnd.random()
+    if r < 0.25:
+        return 0
+    if r < 0.32:
+        return 1
+    if r < 0.40:
+        return H - 2
+    if r < 0.48:
+        return H - 1
+    if r < 0.72:
+        return rnd.choice(MEANINGFUL)
+    return rnd.randrange(0, H)
 
 
 def index(rnd, hardened=None):
